@@ -280,6 +280,18 @@ def law_cases(ctx, nmax, sis):
                 if "I" not in code:
                     continue
                 yield G, code, ctx.rng.choice(ps)
+    # directed contact graphs (a contact u -> v exists iff v is a successor of u): every digraph on up to 3 nodes,
+    # every state, so also the states in which most nodes are infectious
+    for n in range(2, min(nmax, 3) + 1):
+        arcs = [(u, v) for u in range(n) for v in range(n) if u != v]
+        for mask in range(1, 2 ** len(arcs)):
+            D = nx.DiGraph()
+            D.add_nodes_from(range(n))
+            D.add_edges_from(a for i, a in enumerate(arcs) if mask >> i & 1)
+            for code in itertools.product("SIR" if not sis else "SI", repeat=n):
+                if "I" not in code or "S" not in code:
+                    continue
+                yield D, code, ctx.rng.choice(ps)
 
 
 def one_step_law(ctx, drv, sis, nmax, limit):
